@@ -1165,6 +1165,40 @@ impl Interp {
         })
     }
 
+    /// `find-topic <name> <participant> <topic name> <ki|kb|ni|nb|bk|kk> [timeout ns]`: `DomainParticipantAsync::find_topic`
+    /// (a topic of that name created locally, or discovered from another participant — then a local Topic entity is
+    /// created for it); waits at most the timeout in virtual time (default 100 ms). Answers `ok <handle>` and binds
+    /// `<name>` like `topic`, or `err:<Kind>` (`err:Timeout` when nothing of that name is known in time).
+    fn op_find_topic(&mut self, toks: &[&str]) -> Res {
+        let (name, parent, topic_name, ty, timeout) = match toks {
+            [n, p, t, ty] => (*n, *p, *t, *ty, 100_000_000u64),
+            [n, p, t, ty, to] => (*n, *p, *t, *ty, to.parse::<u64>().map_err(|_| "bad timeout".to_string())?),
+            _ => return Err("usage: find-topic <name> <participant> <topic_name> <ki|kb|ni|nb|bk|kk> [timeout ns]".into()),
+        };
+        let (p, _) = self.participant(parent)?;
+        let ty = Ty::parse(ty).ok_or("bad type (ki|kb|ni|nb|bk|kk)")?;
+        let tn = topic_name.to_string();
+        let d = dur(timeout);
+        let r = blk(async move {
+            match ty {
+                Ty::Ki => p.find_topic::<KeyedI32>(&tn, d).await,
+                Ty::Kb => p.find_topic::<KeyedBytes>(&tn, d).await,
+                Ty::Ni => p.find_topic::<KeylessI32>(&tn, d).await,
+                Ty::Nb => p.find_topic::<KeylessBytes>(&tn, d).await,
+                Ty::Bk => p.find_topic::<BytesThenKey>(&tn, d).await,
+                Ty::Kk => p.find_topic::<TwoKeys>(&tn, d).await,
+            }
+        })?;
+        Ok(match r {
+            Ok(x) => {
+                let h = x.get_instance_handle();
+                self.ents.insert(name.to_string(), Ent::Topic(x, ty));
+                format!("ok {}", hx(&h))
+            }
+            Err(e) => err_name(&e),
+        })
+    }
+
     /// `cft <name> <participant> <related topic> <cft_name> <params a,b|-> <expression ...>`
     fn op_cft(&mut self, toks: &[&str]) -> Res {
         if toks.len() < 6 {
@@ -2008,6 +2042,7 @@ impl Interp {
             ("publisher", a) => self.op_publisher(a),
             ("subscriber", a) => self.op_subscriber(a),
             ("topic", a) => self.op_topic(a),
+            ("find-topic", a) => self.op_find_topic(a),
             ("cft", a) => self.op_cft(a),
             ("writer", a) => self.op_writer(a),
             ("reader", a) => self.op_reader(a),
